@@ -2,6 +2,7 @@ package main
 
 import (
 	"bytes"
+	"encoding/hex"
 	"encoding/json"
 	"fmt"
 	"math"
@@ -13,6 +14,7 @@ import (
 	"verifharness/internal/rng"
 
 	"github.com/wolimst/lib-secs2-hsms-go/pkg/ast"
+	"github.com/wolimst/lib-secs2-hsms-go/pkg/parser/hsms"
 )
 
 // C02 — encoded bytes conform to SEMI E5 / E37 (reference encoder oracle).
@@ -22,6 +24,7 @@ type c02Case struct {
 	Item *ref.Item `json:"item,omitempty"`
 	Msg  *ref.Msg  `json:"msg,omitempty"`
 	Bits uint64    `json:"bits,omitempty"`
+	Wire string    `json:"wire,omitempty"` // op=decoded: hex of the (non-canonical) bytes handed to the decoder
 }
 
 func init() { register("C02", "exploration", runC02, replayC02) }
@@ -69,6 +72,70 @@ func c02Item(c *ctx, it *ref.Item, class string) {
 	if !bytes.Equal(got, want) {
 		c.Violation("C02/item/bytes-differ/"+it.Kind.String()+fmt.Sprintf("/lenbytes=%d", want[0]&3),
 			fmt.Sprintf("ToBytes()=%x reference=%x item=%s", clipB(got), clipB(want), clipS(ref.Print(it))), c02Case{Op: "item", Item: it})
+	}
+}
+
+// nonCanonical encodes a variable-free tree the way another implementation legally may: length fields longer than
+// needed, and "true" booleans as any non-zero byte.
+func nonCanonical(r *rng.R, it *ref.Item) []byte {
+	pick := func(n int) int {
+		min := 1
+		if n > 0xFFFF {
+			min = 3
+		} else if n > 0xFF {
+			min = 2
+		}
+		return min + r.Intn(4-min)
+	}
+	switch it.Kind {
+	case ref.L:
+		out := ref.HeaderN(ref.L, len(it.Children), pick(len(it.Children)))
+		for _, ch := range it.Children {
+			out = append(out, nonCanonical(r, ch)...)
+		}
+		return out
+	case ref.BOOLEAN:
+		out := ref.HeaderN(ref.BOOLEAN, len(it.Slots), pick(len(it.Slots)))
+		for _, sl := range it.Slots {
+			b := byte(0)
+			if sl.Uint != 0 {
+				b = byte(1 + r.Intn(255))
+			}
+			out = append(out, b)
+		}
+		return out
+	}
+	canon := ref.Encode(it)
+	hl := 1 + int(canon[0]&3)
+	n := len(canon) - hl
+	return append(ref.HeaderN(it.Kind, n, pick(n)), canon[hl:]...)
+}
+
+// c02Decoded: an item that came out of the decoder is an item like any other: its bytes are the canonical encoding
+// of what it holds, whatever spelling it was decoded from.
+func c02Decoded(c *ctx, cs c02Case) {
+	wire, _ := hex.DecodeString(cs.Wire)
+	want := ref.EncodeMessage(cs.Msg)
+	c.Note(rng.Hash64(wire), !bytes.Equal(wire, want))
+	c.Class("item/decoded-from-another-spelling")
+	var got, gotItem []byte
+	var ok bool
+	o := real.Try(func() {
+		var m ast.HSMSMessage
+		m, ok = hsms.Parse(wire)
+		if ok {
+			got = m.ToBytes()
+			if dm, is := m.(*ast.DataMessage); is {
+				gotItem = dm.ToBytes()[14:]
+			}
+		}
+	})
+	if o.Panicked || !ok {
+		c.Class("decoded/not-accepted(C03's-subject)")
+		return
+	}
+	if !bytes.Equal(got, want) || !bytes.Equal(gotItem, want[14:]) {
+		c.Violation("C02/decoded/bytes-differ", fmt.Sprintf("decoded from %x, ToBytes()=%x, the encoding of %s is %x", clipB(wire), clipB(got), clipS(ref.Print(cs.Msg.Item)), clipB(want)), cs)
 	}
 }
 
@@ -234,7 +301,7 @@ func c02F4Round(c *ctx, bits uint64) {
 }
 
 func runC02(c *ctx) {
-	c.Rule = "reference-encoder oracle: exhaustive 1- and 2-byte formats (every value, single and packed), F4 bit patterns (quick: every 4099th + exponent edges; thorough: all 2^32), boundary+random I4/I8/U4/U8/F8, float64->F4 rounding, generated trees (all 14 formats, 1/2/3 length bytes), messages in every completeness state; non-trivial = encoded length > 2 bytes, distinct by hash of reference bytes (sweeps: distinct by construction)"
+	c.Rule = "reference-encoder oracle: exhaustive 1- and 2-byte formats (every value, single and packed), F4 bit patterns (quick: every 4099th + exponent edges; thorough: all 2^32), boundary+random I4/I8/U4/U8/F8, float64->F4 rounding, generated trees (all 14 formats, 1/2/3 length bytes), messages in every completeness state, trees that reach the encoder through the decoder from non-minimal length fields and non-0/1 booleans; non-trivial = encoded length > 2 bytes, distinct by hash of reference bytes (sweeps: distinct by construction)"
 	c.Assume = []string{"reference encoder internal/ref (self-tested against the repository's literal test vectors)"}
 
 	// (a) exhaustive small formats
@@ -387,6 +454,20 @@ func runC02(c *ctx) {
 		}
 		c02Msg(c, g.Msg(it, i%3 == 0))
 	})
+	// (e2) trees that reach the encoder through the decoder, from non-minimal length fields and non-0/1 booleans
+	c.parallel(c.pick(30000, 300000), func(i int, r *rng.R) {
+		p := gen.Profile{MaxDepth: 1 + r.Intn(4), Boundary: i%9 == 0, Budget: 300}
+		g := gen.New(r, p)
+		var it *ref.Item
+		if i%3 == 0 {
+			it = &ref.Item{Kind: ref.L, Children: []*ref.Item{g.Scalar(ref.BOOLEAN), g.Tree(), g.Scalar(ref.BOOLEAN)}}
+		} else {
+			it = g.Tree()
+		}
+		m := g.Msg(it, true)
+		wire := ref.PatchLen(append(append([]byte{}, ref.EncodeMessage(m)[:14]...), nonCanonical(r, it)...))
+		c02Decoded(c, c02Case{Op: "decoded", Msg: m, Wire: hex.EncodeToString(wire)})
+	})
 	// messages whose length field needs its fourth byte (text of 2^24 bytes or more): one giant item, and many large ones
 	{
 		big := &ref.Item{Kind: ref.A, Str: bytes.Repeat([]byte("q"), ref.MaxBytes-5)}
@@ -421,7 +502,7 @@ func runC02(c *ctx) {
 			c.Violation("C02/msg/partial-bytes-for-a-tree-with-an-empty-item", fmt.Sprintf("item bytes %x, message bytes %x", clipB(itemBytes), clipB(msgBytes)), c02Case{Op: "empty-item"})
 		}
 	}
-	c.Required = []string{"empty-item-inside-a-list", "msg/length>=2^24", "msg/session-unset-again", "msg/complete", "msg/+vars", "msg/+optW", "msg/+nosession", "f4/finite-patterns", "f4round/in-range", "f4round/overflow", "lenbytes=3/A", "lenbytes=2/L"}
+	c.Required = []string{"empty-item-inside-a-list", "msg/length>=2^24", "msg/session-unset-again", "msg/complete", "msg/+vars", "msg/+optW", "msg/+nosession", "f4/finite-patterns", "f4round/in-range", "f4round/overflow", "lenbytes=3/A", "lenbytes=2/L", "item/decoded-from-another-spelling"}
 }
 
 func replayC02(c *ctx, raw json.RawMessage) {
@@ -439,5 +520,7 @@ func replayC02(c *ctx, raw json.RawMessage) {
 		c02F4Block(c, uint32(cs.Bits>>16), 1, &bad)
 	case "f4round":
 		c02F4Round(c, cs.Bits)
+	case "decoded":
+		c02Decoded(c, cs)
 	}
 }
